@@ -22,7 +22,7 @@ fn job_for(p: &Prog, line: u32, full: bool) -> Value {
 pub fn part_sweep(tier: Tier) -> Part {
     let mut part = Part::new("call-injection-sweep");
     let full = tier == Tier::Thorough;
-    part.rule = "at two stops (in main after the program's own calls, inside a callee) every call `c<k> args` for k = 0,1,2,3,6 with every argument tuple over the boundary values that fit the parameter types (ints 0, 1, -1, 255, 256, i64::MAX; bools; u8 0/1/255; u32 0/1/2^32-1; all 64 tuples over {0,-1} for six parameters) is injected through Debugger::call; after each: PTRACE_GETREGS incl. fs/gs base equal before/after, text equal, /proc/pid/maps equal, the function's own counter grew by exactly 1 and its argument checksum is the one of exactly these arguments; impossible calls (unknown function, wrong arity, string literal, swapped types) must fail with all of that unchanged; finally the program must print exactly the counters the memory held and its native result. Non-trivial = calls that ran".into();
+    part.rule = "at two stops (in main after the program's own calls, inside a callee) every call `c<k> args` for k = 0,1,2,3,6 with every argument tuple over the boundary values that fit the parameter types (ints 0, 1, -1, 255, 256, i64::MAX; bools; u8 0/1/255; u32 0/1/2^32-1; all 64 tuples over {0,-1} for six parameters) and `cp <address> k`, `cq k <address> <address>` with pointer parameters (addresses of two statics, which the functions read through) is injected through Debugger::call; after each: PTRACE_GETREGS incl. fs/gs base equal before/after, text equal, /proc/pid/maps equal, the function's own counter grew by exactly 1 and its argument checksum is the one of exactly these arguments; impossible calls (unknown function, wrong arity, string literal, swapped types, integer for a pointer, address for an integer) must fail with all of that unchanged; finally the program must print exactly the counters the memory held and its native result. Non-trivial = calls that ran".into();
     let cfgs = if full { vec![Config::default_cfg(), Config { toolchain: "stable".into(), opt: 0, dwarf: 5, pie: true }] } else { vec![Config::default_cfg()] };
     let progs = match corpus::build_many(&[vec![Stmt::CallTargets, Stmt::CallF]], &cfgs).and_then(prepare) {
         Ok(p) => p,
